@@ -452,7 +452,36 @@ func checkC15(R *Run) {
 			})
 			return cut
 		}
-		unchanged := reachable(fn, cutFor(map[string]bool{"UNCHANGED": true, "ABSENT": false}))
+		// the marker test spelled out — len(pw) == 1 && pw[0] == 0 — holds in the 'unchanged' scenario: both comparisons
+		// are seeded as true, so that the branch on their conjunction is followed on the true side only
+		seedUnchanged := nilState{}
+		eachInstr(fn, func(ins ssa.Instruction) {
+			b, ok := ins.(*ssa.BinOp)
+			if !ok || (b.Op != token.EQL && b.Op != token.NEQ) {
+				return
+			}
+			val := int32(2)
+			if b.Op == token.NEQ {
+				val = 1
+			}
+			for _, pair := range [][2]ssa.Value{{b.X, b.Y}, {b.Y, b.X}} {
+				k, isK := constInt(pair[1])
+				if !isK {
+					continue
+				}
+				if c, isC := stripConv(pair[0]).(*ssa.Call); isC && calleeName(&c.Call) == "builtin.len" && k == 1 && P.requestFieldOf(c.Call.Args[0]) == "FieldUserPassword" {
+					seedUnchanged[b] = val
+				}
+				if u, isU := stripConv(pair[0]).(*ssa.UnOp); isU && u.Op == token.MUL && k == 0 {
+					if ia, isIA := u.X.(*ssa.IndexAddr); isIA {
+						if i0, isI := constInt(ia.Index); isI && i0 == 0 && P.requestFieldOf(ia.X) == "FieldUserPassword" {
+							seedUnchanged[b] = val
+						}
+					}
+				}
+			}
+		})
+		unchanged := reachableCondSeed(fn, cutFor(map[string]bool{"UNCHANGED": true, "ABSENT": false}), nil, seedUnchanged)
 		present := reachable(fn, cutFor(map[string]bool{"ABSENT": false}))
 		nE, nV := 0, 0
 		for _, s := range stores {
